@@ -16,8 +16,9 @@
    compute_shortest_distances_matrix (both heap configurations, any admissible queue). *)
 From Coq Require Import List Arith Bool ZArith Permutation.
 From TK Require Import Conn_Model Conn_Spec Conn_Proof Conn_Proof_Main Conn_Proof_Order
-     Conn_Proof_Dijkstra Conn_Proof_Knn Conn_Proof_Sym Conn_Proof_Consumer.
-From TK Require Dijkstra_Model Dijkstra_Spec Dijkstra_Proof_Base Knn_Spec.
+     Conn_Proof_Dijkstra Conn_Proof_Knn Conn_Proof_Sym Conn_Proof_Consumer Conn_Proof_Methods.
+From TK Require Dijkstra_Model Dijkstra_Spec Dijkstra_Proof_Base Knn_Spec Knn_Brute_Model Knn_VpTree_Model
+     Knn_VpTree_Proof Knn_CoverSel_Model.
 Import ListNotations.
 
 (* ---- what the shipped test decides: reachability from sample 0 along out-edges ---- *)
@@ -272,6 +273,49 @@ Theorem cc_off_keeps_k : forall (knn : nat -> graph) N fuel k,
 Proof. exact main_cc_off. Qed.
 Print Assumptions cc_off_keeps_k.
 
+(* ---- end to end for two of the three methods, composing with C02's models: the brute-force rows are
+        brute_row_fixed of whatever std::nth_element left (oracle, contract nth_ok), the VP-tree rows come from
+        a tree built afresh for every k with any pivot draw / nth_element meeting their contracts ---- *)
+Theorem cc_brute_end_to_end : forall (d : Knn_Spec.dist) N oracle,
+  1 <= N ->
+  (forall k q, k <= N - 1 -> q < N ->
+     Knn_Brute_Model.nth_ok k (Knn_Brute_Model.brute_dists_fixed d N (Z.of_nat q)) (oracle k q)) ->
+  forall k, 1 <= k ->
+  exists j, find_neighbors is_connected_fixed (fun k => graph_of_Z (brute_search N oracle k)) N N k true
+            = COk (kseq N k j, graph_of_Z (brute_search N oracle (kseq N k j))) /\
+    strongly_connected N (graph_of_Z (brute_search N oracle (kseq N k j))) /\
+    forall j', j' < j -> ~ strongly_connected N (graph_of_Z (brute_search N oracle (kseq N k j'))).
+Proof. exact main_cc_brute. Qed.
+Print Assumptions cc_brute_end_to_end.
+
+Theorem cc_vptree_end_to_end : forall (d : Knn_Spec.dist) N piv nth,
+  1 <= N -> Knn_Spec.metric_on (Knn_Spec.in_range N) d ->
+  (forall k, Knn_VpTree_Proof.piv_ok (piv k)) -> (forall k, Knn_VpTree_Proof.nth_oracle_ok d (nth k)) ->
+  forall k, 1 <= k ->
+  exists j, find_neighbors is_connected_fixed (fun k => graph_of_Z (vptree_search d N piv nth k)) N N k true
+            = COk (kseq N k j, graph_of_Z (vptree_search d N piv nth (kseq N k j))) /\
+    strongly_connected N (graph_of_Z (vptree_search d N piv nth (kseq N k j))) /\
+    forall j', j' < j ->
+      ~ strongly_connected N (graph_of_Z (vptree_search d N piv nth (kseq N k j'))).
+Proof. exact main_cc_vptree. Qed.
+Print Assumptions cc_vptree_end_to_end.
+
+(* PARTIAL (named so): the cover-tree method through its selection wrapper only; the candidate list returned
+   by CoverTreeWrapper::k_nearest_neighbor is an oracle with contract cand_complete (validated at run time by
+   C02's check on every observed query), the batch query of covertree.hpp is not modelled (as in C02) *)
+Theorem cc_covertree_end_to_end_partial : forall (d : Knn_Spec.dist) N cands,
+  1 <= N ->
+  (forall k q, k <= N - 1 -> q < N ->
+     Knn_CoverSel_Model.cand_complete d N (Z.of_nat q) k (cands k q)) ->
+  forall k, 1 <= k ->
+  exists j, find_neighbors is_connected_fixed (fun k => graph_of_Z (covertree_search d N cands k)) N N k true
+            = COk (kseq N k j, graph_of_Z (covertree_search d N cands (kseq N k j))) /\
+    strongly_connected N (graph_of_Z (covertree_search d N cands (kseq N k j))) /\
+    forall j', j' < j ->
+      ~ strongly_connected N (graph_of_Z (covertree_search d N cands (kseq N k j'))).
+Proof. exact main_cc_covertree_partial. Qed.
+Print Assumptions cc_covertree_end_to_end_partial.
+
 (* the boolean oracles the harness applies to the implementation's own output *)
 Theorem spec_oracles : forall N nb, 0 < N -> wf_b N nb = true ->
   (strong_b N nb = true <-> strongly_connected N nb) /\
@@ -321,3 +365,17 @@ Example hyps_consumer_satisfiable :
   Dijkstra_Spec.nonneg_w (knn_brute w8_pts 6) (pdist w8_pts) /\
   Dijkstra_Proof_Base.pick_ok Dijkstra_Model.pick_first_min.
 Proof. exact nv_consumer. Qed.
+
+Example hyps_methods_satisfiable :
+  1 <= 5 /\ Knn_Spec.metric_on (Knn_Spec.in_range 5) m_line_d /\
+  (forall k q, k <= 5 - 1 -> q < 5 ->
+     Knn_Brute_Model.nth_ok k (Knn_Brute_Model.brute_dists_fixed m_line_d 5 (Z.of_nat q))
+        (Knn_Brute_Model.nth_element_ref (Knn_Brute_Model.brute_dists_fixed m_line_d 5 (Z.of_nat q)))) /\
+  (forall k : nat, Knn_VpTree_Proof.piv_ok Knn_VpTree_Model.piv_first) /\
+  (forall k : nat, Knn_VpTree_Proof.nth_oracle_ok m_line_d (Knn_VpTree_Model.nth_sort m_line_d)).
+Proof. exact nv_methods. Qed.
+
+Example hyps_covertree_satisfiable :
+  forall k q, k <= 5 - 1 -> q < 5 ->
+    Knn_CoverSel_Model.cand_complete m_line_d 5 (Z.of_nat q) k (Knn_Spec.others 5 (Z.of_nat q)).
+Proof. exact nv_covertree. Qed.
